@@ -353,7 +353,7 @@ func (j *jsonJudge) judgeDocument(r *gen.RNG) {
 func runC13(c *Ctx) {
 	c.Parallel("marshal", ref.NearestEven, func(sh *mon.Shard, r *gen.RNG) {
 		j := &jsonJudge{ctx: c, sh: sh}
-		n := c.N(6000, 120000)
+		n := c.N(30000, 300000)
 		for i := 0; i < n; i++ {
 			switch i % 6 {
 			case 0:
@@ -391,7 +391,7 @@ func runC13(c *Ctx) {
 					j.judgeUnmarshal(s)
 				}
 			}
-			n := c.N(5000, 80000)
+			n := c.N(20000, 200000)
 			if def != ref.NearestEven {
 				n /= 3
 			}
